@@ -3,10 +3,16 @@
 //
 //	translator -repo /repo -out /verif/coq/gen
 //
-// It parses internal/gem/graphemeclusters.go with go/ast and requires every
-// class predicate (isCb*, isExtPicto) to be a single `return` of a disjunction
-// of atoms `lo <= r && r <= hi` or `r == x` over integer literals. Any other
-// shape is a translation failure (exit 2, message on stderr), which the checks
+// It parses internal/gem/graphemeclusters.go with go/ast. Every class predicate
+// (isCb*, isExtPicto) is evaluated symbolically to the set of values it accepts:
+// the shape the source has today (a single `return` of a disjunction of atoms
+// `lo <= r && r <= hi` or `r == x`) is kept in source order; any boolean
+// combination of comparisons with literals, calls of other predicates, if/else
+// chains, switches and early returns (setexpr.go) gives the same set, merged. A
+// predicate outside that fragment (a table lookup, say) ends the run with status
+// 3; called again with -sweep FILE (the harness's evaluation of the compiled
+// predicate on every code point) its table is read off the compiled code
+// instead. Other failures are status 2 (message on stderr), which the checks
 // treat as a broken proof obligation.
 package main
 
@@ -33,9 +39,38 @@ var predOrder = []string{
 	"isCbLV", "isCbLVT", "isCbZWJ", "isExtPicto",
 }
 
+// softErr is what fail panics with while softFail is set: the failure then concerns one
+// generated file only (it is written as a stub naming the reason, so that only the proofs that
+// depend on it stop building) instead of ending the whole translation.
+type softErr string
+
+var softFail bool
+
 func fail(format string, a ...interface{}) {
+	if softFail {
+		panic(softErr(fmt.Sprintf(format, a...)))
+	}
 	fmt.Fprintf(os.Stderr, "translator: "+format+"\n", a...)
 	os.Exit(2)
+}
+
+// tryIntFunc translates one int-only function; when its shape is outside what intFunc
+// understands the result is a stub without the definition (the equality proof that needs it
+// then fails to build, which is reported for the property it belongs to only).
+func tryIntFunc(repo, file, name string) (out string) {
+	softFail = true
+	defer func() {
+		softFail = false
+		if r := recover(); r != nil {
+			e, ok := r.(softErr)
+			if !ok {
+				panic(r)
+			}
+			fmt.Fprintf(os.Stderr, "translator: %s not translated: %s\n", name, string(e))
+			out = fmt.Sprintf("(* NOT TRANSLATED: %s: %s *)\nDefinition go_%s_not_translated : unit := tt.\n", name, strings.ReplaceAll(string(e), "*)", "* )"), name)
+		}
+	}()
+	return intFunc(repo, file, name)
 }
 
 func intLit(e ast.Expr) (int64, bool) {
@@ -162,52 +197,126 @@ func disj(e ast.Expr, param string, out *[]interval) bool {
 	return true
 }
 
-func tables(repo string) map[string][]interval {
+// simplePred is the shape the source has today: a single return of a disjunction of range
+// atoms. The intervals are kept in source order, unmerged.
+func simplePred(fd *ast.FuncDecl) ([]interval, bool) {
+	if fd.Type.Params == nil || len(fd.Type.Params.List) != 1 || len(fd.Type.Params.List[0].Names) != 1 {
+		return nil, false
+	}
+	param := fd.Type.Params.List[0].Names[0].Name
+	if fd.Body == nil || len(fd.Body.List) != 1 {
+		return nil, false
+	}
+	ret, ok := fd.Body.List[0].(*ast.ReturnStmt)
+	if !ok || len(ret.Results) != 1 {
+		return nil, false
+	}
+	var ivs []interval
+	if !disj(ret.Results[0], param, &ivs) {
+		return nil, false
+	}
+	return ivs, true
+}
+
+// generalPred evaluates any predicate of the fragment of setexpr.go; ok is false (with the
+// reason) when the predicate is outside it.
+func generalPred(env *predEnv, name string) (ivs []interval, why string, ok bool) {
+	softFail = true
+	defer func() {
+		softFail = false
+		if r := recover(); r != nil {
+			e, isSoft := r.(softErr)
+			if !isSoft {
+				panic(r)
+			}
+			ivs, why, ok = nil, string(e), false
+		}
+	}()
+	s := env.setOf(name)
+	for _, iv := range s {
+		if iv.lo <= negInf || iv.hi >= posInf {
+			fail("%s: true on an unbounded set of values", name)
+		}
+	}
+	return []interval(s), "", true
+}
+
+// sweepPred reads the set from the harness's exhaustive evaluation of the compiled predicate
+// (one line "codepoint bits" per value; bit i is predOrder[i]).
+func sweepPred(sweep string, idx int) []interval {
+	data, err := os.ReadFile(sweep)
+	if err != nil {
+		fail("sweep file: %v", err)
+	}
+	var cps []int64
+	for _, ln := range strings.Split(string(data), "\n") {
+		f := strings.Fields(ln)
+		if len(f) != 2 {
+			continue
+		}
+		cp, e1 := strconv.ParseInt(f[0], 10, 64)
+		bits, e2 := strconv.ParseInt(f[1], 10, 64)
+		if e1 != nil || e2 != nil {
+			fail("sweep file: bad line %q", ln)
+		}
+		if bits>>uint(idx)&1 == 1 {
+			cps = append(cps, cp)
+		}
+	}
+	var s iset
+	for _, c := range cps {
+		s = append(s, interval{c, c})
+	}
+	return []interval(s.norm())
+}
+
+// tables returns the interval table of every class predicate and the names of those that had
+// to be read off the compiled code (sweep) because their source is outside the translated
+// fragment. Without a sweep file such a predicate ends the run with status 3, which asks the
+// caller to run the sweep and call again.
+func tables(repo, sweep string) (map[string][]interval, []string) {
 	path := filepath.Join(repo, "internal", "gem", "graphemeclusters.go")
 	fset := token.NewFileSet()
 	f, err := parser.ParseFile(fset, path, nil, 0)
 	if err != nil {
 		fail("parse %s: %v", path, err)
 	}
-	res := map[string][]interval{}
+	env := &predEnv{fns: map[string]*ast.FuncDecl{}, memo: map[string]iset{}, stack: map[string]bool{}}
 	for _, d := range f.Decls {
-		fd, ok := d.(*ast.FuncDecl)
-		if !ok || fd.Recv != nil {
-			continue
+		if fd, ok := d.(*ast.FuncDecl); ok && fd.Recv == nil {
+			env.fns[fd.Name.Name] = fd
 		}
-		name := fd.Name.Name
-		want := false
-		for _, p := range predOrder {
-			if p == name {
-				want = true
-			}
-		}
-		if !want {
-			continue
-		}
-		if fd.Type.Params == nil || len(fd.Type.Params.List) != 1 || len(fd.Type.Params.List[0].Names) != 1 {
-			fail("%s: unexpected parameter list", name)
-		}
-		param := fd.Type.Params.List[0].Names[0].Name
-		if fd.Body == nil || len(fd.Body.List) != 1 {
-			fail("%s: body is not a single statement", name)
-		}
-		ret, ok := fd.Body.List[0].(*ast.ReturnStmt)
-		if !ok || len(ret.Results) != 1 {
-			fail("%s: body is not a single return", name)
-		}
-		var ivs []interval
-		if !disj(ret.Results[0], param, &ivs) {
-			fail("%s: return expression at %s is not a disjunction of range atoms", name, fset.Position(ret.Pos()))
-		}
-		res[name] = ivs
 	}
-	for _, p := range predOrder {
-		if _, ok := res[p]; !ok {
+	res := map[string][]interval{}
+	var swept []string
+	var need []string
+	for i, p := range predOrder {
+		fd := env.fns[p]
+		if fd == nil {
 			fail("predicate %s not found", p)
 		}
+		if ivs, ok := simplePred(fd); ok {
+			res[p] = ivs
+			continue
+		}
+		ivs, why, ok := generalPred(env, p)
+		if ok {
+			res[p] = ivs
+			continue
+		}
+		fmt.Fprintf(os.Stderr, "translator: %s is outside the translated fragment (%s)\n", p, why)
+		if sweep == "" {
+			need = append(need, p)
+			continue
+		}
+		res[p] = sweepPred(sweep, i)
+		swept = append(swept, p)
 	}
-	return res
+	if len(need) > 0 {
+		fmt.Fprintf(os.Stderr, "translator: need the exhaustive sweep of the compiled predicates for %s\n", strings.Join(need, ", "))
+		os.Exit(3)
+	}
+	return res, swept
 }
 
 // ---- constants -----------------------------------------------------------
@@ -282,11 +391,16 @@ func writeIfChanged(path, content string) {
 func main() {
 	repo := flag.String("repo", "/repo", "repository root")
 	out := flag.String("out", "/verif/coq/gen", "output directory")
+	sweep := flag.String("sweep", "", "output of `harness sweep`, used for predicates whose source is outside the translated fragment")
 	flag.Parse()
 
-	tabs := tables(*repo)
+	tabs, swept := tables(*repo, *sweep)
 	var b strings.Builder
 	b.WriteString("(* GENERATED by /verif/translator from internal/gem/graphemeclusters.go. Do not edit. *)\n")
+	if len(swept) > 0 {
+		b.WriteString("(* read off the compiled predicates by exhaustive evaluation (source outside the translated fragment): " + strings.Join(swept, ", ") + " *)\n")
+		fmt.Printf("translator: from the sweep of the compiled code: %s\n", strings.Join(swept, ", "))
+	}
 	b.WriteString("From Coq Require Import ZArith List.\nImport ListNotations.\nOpen Scope Z_scope.\n\n")
 	total := 0
 	for _, p := range predOrder {
@@ -371,7 +485,7 @@ func main() {
 	var fn strings.Builder
 	fn.WriteString("(* GENERATED by /verif/translator from internal/util/util.go. Do not edit. *)\n")
 	fn.WriteString("From Coq Require Import ZArith Bool.\nOpen Scope Z_scope.\n\n")
-	fn.WriteString(intFunc(*repo, filepath.Join("internal", "util", "util.go"), "RangeToIndexes"))
+	fn.WriteString(tryIntFunc(*repo, filepath.Join("internal", "util", "util.go"), "RangeToIndexes"))
 	writeIfChanged(filepath.Join(*out, "Funcs.v"), fn.String())
 	fmt.Printf("translator: %d predicates, %d intervals\n", len(predOrder), total)
 }
